@@ -390,42 +390,69 @@ def r4_selector(ctx, m, pat_alpha: str) -> None:
             r.violation("C02.R4", MOD + ".identifier_pattern", f"pattern alphabet lacks {''.join(sorted(missing))!r}", f"detection names may contain {sorted(missing)} but no selector pattern can: '1 of sel-*' is a syntax error although 'sel-1 or sel-2' parses", loc)
         else:
             r.ok("C02.R4", MOD + ".identifier_pattern", "pattern alphabet ⊇ identifier alphabet", loc)
-    sp = prog.func(MOD + ".ConditionSelector.postprocess")
-    ctor = [c for c in walk_no_nested(sp.node) if isinstance(c, ast.Call) and call_name(c) == "self.cond_class"]
-    if ctor and any(g.replace(" ", "") in ("len(ids)==0", "notids") and not p or g.replace(" ", "") in ("ids", "len(ids)>0") and p for g, p in atomic_guards(guards_at(prog, sp, ctor[0]))) \
-            and any(isinstance(x, ast.Raise) and "SigmaConditionError" in unparse(x) for x in walk_no_nested(sp.node)):
-        r.ok("C02.R4", sp.qual, "a selector that matches no detection is a SigmaConditionError (no operator without operands is built)", sp.loc)
-    else:
-        r.violation("C02.R4", sp.qual, "self.cond_class(ids) for an empty match", "a selector that matches no detection builds an operator without operands, which the n-ary converters drop: 'a or 1 of x*' and 'a and 1 of x*' both convert to a, 'not 1 of x*' to nothing — the condition no longer denotes the function it spells", sp.loc)
     if "*" not in pat_alpha or "_" not in pat_alpha:
         r.violation("C02.R4", MOD + ".identifier_pattern", f"alphabet {''.join(sorted(set(pat_alpha)))!r}", "pattern alphabet must contain '*' and '_'", loc)
     fi = prog.func(MOD + ".ConditionSelector.resolve_referenced_detections")
     _r4_selection_table(ctx, fi)
-    # quantifier table
-    pi = prog.func(MOD + ".ConditionSelector.__post_init__")
-    table = {}
-    for n in walk_no_nested(pi.node):
-        if isinstance(n, ast.Assign) and unparse(n.targets[0]) == "self.cond_class":
-            for t, p in atomic_guards(guards_at(prog, pi, n)):
-                if p and t.startswith("self.args[0]"):
-                    table[t.replace('"', "'")] = unparse(n.value)
-    want = {"self.args[0] in ['1', 'any']": "ConditionOR", "self.args[0] == 'all'": "ConditionAND"}
-    if table == want:
-        r.ok("C02.R4", pi.qual, "1|any → ConditionOR, all → ConditionAND", pi.loc)
+    # quantifier table and replacement: __post_init__ and postprocess interpreted (sa.tabulate, Proxy) on stand-in operator
+    # classes and a stand-in resolution of the pattern
+    from ..tabulate import Proxy, call_method, Raised
+    SEL = MOD + ".ConditionSelector"
+    pi = prog.func(SEL + ".__post_init__")
+    pp = prog.func(SEL + ".postprocess")
+
+    class _Op:
+        def __init__(self, args, *a, **k):
+            self.args, self.extra = args, (a, k)
+            self.pp_calls = []
+        def postprocess(self, *a, **k):
+            self.pp_calls.append((a, k))
+            return ("POSTPROCESSED", self)
+    class ConditionOR(_Op): pass
+    class ConditionAND(_Op): pass
+    env = {"ConditionOR": ConditionOR, "ConditionAND": ConditionAND}
+    IK = {"max_steps": 6000}
+    table, problems = {}, []
+    for q in ("1", "any", "all", "2", "none", "ALL", ""):
+        me = Proxy(prog, SEL, env, {"args": [q, "sel*"], "source": None}, interp_kwargs=IK)
+        try:
+            call_method(prog, SEL, "__post_init__", me, env, interp_kwargs=IK)
+            cc = me.attrs().get("cond_class")
+            table[q] = getattr(cc, "__name__", repr(cc))
+            if me.attrs().get("pattern") != "sel*":
+                problems.append(f"pattern of '{q} of sel*' is {me.attrs().get('pattern')!r}: the selector pattern is not the second token")
+        except Raised as ex:
+            table[q] = "error" if "SigmaConditionError" in str(ex) else f"raises {ex}"
+    want = {"1": "ConditionOR", "any": "ConditionOR", "all": "ConditionAND", "2": "error", "none": "error", "ALL": "error", "": "error"}
+    if table == want and not problems:
+        r.ok("C02.R4", pi.qual, "1|any → ConditionOR, all → ConditionAND, anything else is a condition error; pattern = second token (interpreted)", pi.loc)
+    elif table != want:
+        r.violation("C02.R4", pi.qual, str({k: v for k, v in table.items() if want[k] != v}), f"quantifier table differs from {want}", pi.loc)
     else:
-        r.violation("C02.R4", pi.qual, str(table), f"quantifier table differs from {want}", pi.loc)
-    pat = [n for n in walk_no_nested(pi.node) if isinstance(n, ast.Assign) and unparse(n.targets[0]) == "self.pattern"]
-    if pat and unparse(pat[0].value) == "self.args[1]":
-        r.ok("C02.R4", pi.qual, "pattern = args[1]", pi.loc)
-    else:
-        r.violation("C02.R4", pi.qual, "self.pattern = self.args[1]", "selector pattern is not the second token", pi.loc)
-    # postprocess builds cond_class(ids) and recurses
-    pp = prog.func(MOD + ".ConditionSelector.postprocess")
-    src = unparse(pp.node)
-    if "self.resolve_referenced_detections(detections)" in src and "self.cond_class(" in src and "cond.postprocess(detections, parent, source)" in src:
-        r.ok("C02.R4", pp.qual, "selector → cond_class(resolved identifiers).postprocess(...)", pp.loc)
-    else:
-        r.violation("C02.R4", pp.qual, "ConditionSelector.postprocess", "selector is no longer replaced by cond_class over exactly the resolved identifiers", pp.loc)
+        r.violation("C02.R4", pi.qual, "self.pattern = self.args[1]", problems[0], pi.loc)
+    for q, klass in (("1", ConditionOR), ("all", ConditionAND)):
+        for ids in (["I1", "I2", "I3"], ["I1"], []):
+            dets, parent, src = object(), object(), object()
+            me = Proxy(prog, SEL, env, {"args": [q, "sel*"], "source": None, "cond_class": klass, "pattern": "sel*", "parent": None,
+                                       "resolve_referenced_detections": lambda d_, _ids=ids: list(_ids)}, interp_kwargs=IK)
+            try:
+                ret = call_method(prog, SEL, "postprocess", me, env, dets, parent, src, interp_kwargs=IK)
+            except Raised as ex:
+                if ids or "SigmaConditionError" not in str(ex):
+                    r.violation("C02.R4", pp.qual, "ConditionSelector.postprocess", f"'{q} of sel*' over the matches {ids}: raises {ex}", pp.loc)
+                else:
+                    r.ok("C02.R4", pp.qual, f"'{q} of …': a selector that matches no detection is a SigmaConditionError (no operator without operands is built)", pp.loc)
+                continue
+            if not ids:
+                r.violation("C02.R4", pp.qual, "self.cond_class(ids) for an empty match", "a selector that matches no detection builds an operator without operands, which the n-ary converters drop: 'a or 1 of x*' and 'a and 1 of x*' both convert to a, 'not 1 of x*' to nothing — the condition no longer denotes the function it spells", pp.loc)
+                continue
+            op = ret[1] if isinstance(ret, tuple) and len(ret) == 2 and ret[0] == "POSTPROCESSED" else None
+            if op is None or type(op) is not klass or list(op.args) != ids or len(op.pp_calls) != 1 or op.pp_calls[0][0][:1] != (dets,) \
+                    or (list(op.pp_calls[0][0][1:2]) + [op.pp_calls[0][1].get("parent")])[0] is not parent or me.attrs().get("parent") is not parent:
+                got = f"{type(op).__name__}({getattr(op, 'args', None)}), postprocess calls {len(getattr(op, 'pp_calls', []))}" if op is not None else repr(ret)
+                r.violation("C02.R4", pp.qual, "ConditionSelector.postprocess", f"selector is no longer replaced by cond_class over exactly the resolved identifiers: '{q} of sel*' over {ids} gives {got}", pp.loc)
+            else:
+                r.ok("C02.R4", pp.qual, f"'{q} of sel*' over {len(ids)} match(es) → {klass.__name__}(the matches, in order).postprocess(detections, parent, …) (interpreted)", pp.loc)
     r.floor("C02.R4", 7)
 
 
